@@ -301,6 +301,48 @@ class DocGen:
         del live[i + 1]
 
 
+def clef_split_doc(rng):
+    """a **kern spine (plus optionally a second one) that splits, changes clef in ONE sub-spine (or to different clefs in both),
+    carries notes and chords in both sub-spines, joins, continues, and changes clef again later"""
+    cg = CellGen(rng, sig_weight=0.2)
+    two = rng.random() < 0.5
+    hs = ['**kern', '**kern'] if two else ['**kern']
+    rows = []
+    live = list(range(len(hs)))
+
+    def row(rk, fn):
+        rows.append({'kind': 'cells', 'rk': rk, 'cells': [fn(j, s) for j, s in enumerate(live)], 'live': list(live)})
+    rows.append({'kind': 'cells', 'rk': 'header', 'cells': [{'k': 'header', 'text': h} for h in hs], 'live': list(live)})
+    row('interp', lambda j, s: {'k': 'other', 'kind': 'clef', 'text': rng.choice(CLEFS)})
+    row('bar', lambda j, s, b=cg.bar(1): dict(b))
+    row('data', lambda j, s: cg.note(dur_required=True))
+    k = rng.randrange(len(live))
+    rows.append({'kind': 'cells', 'rk': 'split', 'cells': [op_cell('*^') if j == k else dict(NULL_I) for j in range(len(live))], 'live': list(live)})
+    live.insert(k, live[k])
+    row('data', lambda j, s: cg.data_cell('**kern'))
+    which = rng.choice(['left', 'right', 'both'])
+    c1, c2 = rng.sample(CLEFS, 2)
+
+    def clefcell(j, s):
+        if j == k and which in ('left', 'both'):
+            return {'k': 'other', 'kind': 'clef', 'text': c1}
+        if j == k + 1 and which in ('right', 'both'):
+            return {'k': 'other', 'kind': 'clef', 'text': c2}
+        return dict(NULL_I)
+    row('interp', clefcell)
+    for _ in range(rng.randint(1, 3)):
+        row('data', lambda j, s: cg.chord() if rng.random() < 0.3 else cg.note(dur_required=True))
+    rows.append({'kind': 'cells', 'rk': 'join', 'cells': [op_cell('*v') if j in (k, k + 1) else dict(NULL_I) for j in range(len(live))], 'live': list(live)})
+    del live[k + 1]
+    row('data', lambda j, s: cg.note(dur_required=True))
+    row('bar', lambda j, s, b=cg.bar(2): dict(b))
+    if rng.random() < 0.6:
+        row('interp', lambda j, s: {'k': 'other', 'kind': 'clef', 'text': rng.choice(CLEFS)} if rng.random() < 0.7 else dict(NULL_I))
+    row('data', lambda j, s: cg.note(dur_required=True))
+    rows.append({'kind': 'cells', 'rk': 'term', 'cells': [op_cell('*-') for _ in live], 'live': list(live)})
+    return {'headers': hs, 'rows': rows, 'profile': 'clef-split'}
+
+
 def all_cells(doc):
     for row in doc['rows']:
         if row['kind'] == 'cells':
